@@ -194,3 +194,10 @@ Example C06_example_query :
   is_err (decode_query ex_orc ex_env [78] [([115], [[120]; [121]])]) = true /\
   decode_query ex_orc ex_env [78] [([99], [[32; 123; 34; 115; 34; 58; 34; 113; 34; 125]])] = Ok [(5, VMsg [(1, VStr [113])])].
 Proof. vm_compute. repeat split; reflexivity. Qed.
+
+(* the counter on the example document: 25 steps for 29 tokens / 86 bytes; 3 steps until {"r":[null]} is refused *)
+Example C06_example_steps :
+  snd (CodecDecCost.decode_document_c ex_orc ex_env [78] ex_doc) = 25%nat /\
+  length (fst (lex ex_doc)) = 29%nat /\ length ex_doc = 86%nat /\
+  snd (CodecDecCost.decode_document_c ex_orc ex_env [78] [123;34;114;34;58;91;110;117;108;108;93;125]) = 3%nat.
+Proof. vm_compute. repeat split; reflexivity. Qed.
